@@ -45,6 +45,23 @@ theorem C17_curate_mergeSort (all succ : List Nat) (complete : Bool) :
       (all.filter fun i => !succ.contains i).map fun i => (i, if complete then Msg.notFound else Msg.unavailable) :=
   curateWith_eq sortIds_isSort all succ complete
 
+/-- the Go function allocates `make([]FailedPoint, 0, len(allIds)-len(successIds))` and panics when the
+success list is longer than the request.  With ids unique per collection that cannot happen: the
+shards' success lists together are never longer than the request (update: `req`, delete: `ids`). -/
+theorem C17_curate_precondition {col : Coll} (hu : Uniq col) (req : List (Nat × Int)) (ids : List Nat) :
+    (updatePoints col req).results.length ≤ (req.map (·.1)).length ∧ (deletePoints col ids).results.length ≤ ids.length := by
+  constructor
+  · simp only [updatePoints, updSucc]
+    exact Nat.le_trans (fan_length_le hu _) (List.length_filter_le _ _)
+  · simp only [deletePoints, delSucc]
+    refine Nat.le_trans (fan_length_le hu _) (Nat.le_trans (List.length_filter_le _ _) ?_)
+    have : ∀ l : List Nat, (dedup l).length ≤ l.length := by
+      intro l
+      induction l with
+      | nil => simp [dedup]
+      | cons a l ih => simp only [dedup]; split <;> simp <;> omega
+    exact this ids
+
 example : curate [5, 3, 5, 9, 1] [9, 2, 3, 3] false = [(5, .unavailable), (5, .unavailable), (1, .unavailable)] := by decide
 
 /-! ### failed lists of update and delete -/
